@@ -187,6 +187,10 @@ def c_rest(ctx, it, cfg):
     ctx.prove('nucleation/thermodynamics-queried-once-per-phase', len(seen) == P)
     for k_, c in enumerate(seen):
         ctx.prove('nucleation/thermodynamics-queried-at-the-balance-composition[query%d]' % k_, and_(*[eq(c[1].get(e) if isinstance(c[1], ArrBase) and c[1].ndim else c[1], comp0[e]) for e in range(E)]))
+    # every phase gets its own driving force recorded, whatever the sign of the driving force of the phases listed before it
+    if len(seen) == P:
+        for p in range(P):
+            ctx.prove('nucleation/phase%d-records-the-driving-force-of-its-own-query' % p, eq(Y.fields['drivingForce'].get(0, p), real(ctx, 'volDG%d' % (p + 1))))
     frame(ctx, 'nucleation/history', pd, prePD, modifies=[])
     ctx.prove('canary/nucleation-writes-nothing', eq(Y.fields['drivingForce'].get(0, 0), preY['drivingForce'].fn(0, 0)), expect='refuted')
     if E >= 2:
